@@ -72,6 +72,7 @@ def sc_e(op, a, b): return {"k": "sc", "op": op, "a": a, "b": b}
 def scond_e(c, a, b): return {"k": "scond", "c": c, "a": a, "b": b}
 def scomma_e(a, b): return {"k": "scomma", "a": a, "b": b}
 def asg_e(op, l, r): return {"k": "asg", "op": op, "l": l, "r": r}
+def chain(ops, es): return {"k": "chain", "ops": list(ops), "es": list(es)}
 
 
 # ---- statements ----
@@ -223,6 +224,11 @@ def rexpr(e, structs):
         return "(%s ? %s : %s)" % (r(e["c"]), r(e["a"]), r(e["b"]))
     if k == "scomma":
         return "(%s, %s)" % (r(e["a"]), r(e["b"]))
+    if k == "chain":     # e1 op1 e2 op2 e3 ...: the bare token sequence; which operands belong to which operator is the grammar's business (OpCases.tla GrammarTree)
+        out = [r(e["es"][0])]
+        for op, x in zip(e["ops"], e["es"][1:]):
+            out += [op, r(x)]
+        return " ".join(out)
     raise ValueError(k)
 
 
